@@ -816,4 +816,734 @@ theorem serverRun_parses_back (E : Env) (hsz : ∀ x, (E.z.comp x).length + 56 <
       · simp at hm
       · exact hrep.sizes hsz m hm
 
+/-! ### the byte-level loop is the message-level loop after framing -/
+
+/-- the loop of `Serve` over messages that have been read already: what it writes, the messages it
+    leaves unread, and its verdict — `none` when the messages ran out and the loop is still going -/
+def serveMsgs (E : Env) : Option Nat → Option Nat → List Message → List Message × List Message × Option End
+  | _, _, [] => ([], [], none)
+  | cancel, wr, m :: ms =>
+    if cancel = some 0 then ([], m :: ms, some .nilCancelled)
+    else
+      match arm E true wr m with
+      | .stop e => ([], ms, some e)
+      | .next sent wr' =>
+        let r := serveMsgs E (cancel.map (· - 1)) wr' ms
+        (sent ++ r.1, r.2.1, r.2.2)
+
+/-- what reading these messages charges to the reader -/
+def allocOf : List Message → Nat
+  | [] => 0
+  | m :: ms => (8 + m.body.length) + allocOf ms
+
+theorem wrWrite_some {wr w : Option Nat} (h : wrWrite wr = some w) : w = wr.map (· - 1) := by
+  cases wr with
+  | none => simp [wrWrite] at h; subst h; rfl
+  | some n =>
+    cases n with
+    | zero => simp [wrWrite] at h
+    | succ n => simp [wrWrite] at h; simp [← h]
+
+theorem serveLoop_wire (E : Env) : ∀ (ms : List Message), (∀ m ∈ ms, 16 + m.body.length < 2^64) →
+    ∀ (tail : Bytes) (a fuel : Nat) (cancel wr : Option Nat), ms.length < fuel →
+      (∀ sent rem e, serveMsgs E cancel wr ms = (sent, rem, some e) →
+        (serveLoop E true fuel cancel wr ⟨wire ms ++ tail, a⟩).1 = sent ∧
+        (serveLoop E true fuel cancel wr ⟨wire ms ++ tail, a⟩).2.2 = e ∧
+        (serveLoop E true fuel cancel wr ⟨wire ms ++ tail, a⟩).2.1.rest = wire rem ++ tail) ∧
+      (∀ sent rem, serveMsgs E cancel wr ms = (sent, rem, none) →
+        serveLoop E true fuel cancel wr ⟨wire ms ++ tail, a⟩ =
+          (sent ++ (serveLoop E true (fuel - ms.length) (cancel.map (· - ms.length)) (wr.map (· - sent.length))
+              ⟨tail, a + allocOf ms⟩).1,
+            (serveLoop E true (fuel - ms.length) (cancel.map (· - ms.length)) (wr.map (· - sent.length))
+              ⟨tail, a + allocOf ms⟩).2.1,
+            (serveLoop E true (fuel - ms.length) (cancel.map (· - ms.length)) (wr.map (· - sent.length))
+              ⟨tail, a + allocOf ms⟩).2.2)) := by
+  intro ms
+  induction ms with
+  | nil =>
+    intro _ tail a fuel cancel wr _
+    refine ⟨fun sent rem e h => by simp [serveMsgs] at h, fun sent rem h => ?_⟩
+    simp only [serveMsgs, Prod.mk.injEq] at h
+    obtain ⟨rfl, _, _⟩ := h
+    have h1 : cancel.map (· - 0) = cancel := by cases cancel <;> simp
+    have h2 : wr.map (· - 0) = wr := by cases wr <;> simp
+    simp [allocOf]
+  | cons m ms ih =>
+    intro hsz tail a fuel cancel wr hf
+    cases fuel with
+    | zero => simp at hf
+    | succ fuel =>
+      have hf' : ms.length < fuel := by simpa using hf
+      have hszm := hsz m List.mem_cons_self
+      have hsz' : ∀ x ∈ ms, 16 + x.body.length < 2^64 := fun x hx => hsz x (List.mem_cons_of_mem _ hx)
+      have hrd : readMessage ⟨wire (m :: ms) ++ tail, a⟩ = .ok (m, ⟨wire ms ++ tail, a + (8 + m.body.length)⟩) := by
+        rw [wire_cons, List.append_assoc]
+        exact readMessage_writeMessage m _ a hszm
+      by_cases hc : cancel = some 0
+      · subst hc
+        simp only [serveMsgs, serveLoop, ↓reduceIte]
+        refine ⟨fun sent rem e h => ?_, fun sent rem h => by simp at h⟩
+        simp only [Prod.mk.injEq, Option.some.injEq] at h
+        obtain ⟨rfl, rfl, rfl⟩ := h
+        exact ⟨rfl, rfl, rfl⟩
+      · cases ha : arm E true wr m with
+        | stop e' =>
+          simp only [serveMsgs, serveLoop, hc, ↓reduceIte, hrd, ha]
+          refine ⟨fun sent rem e h => ?_, fun sent rem h => by simp at h⟩
+          simp only [Prod.mk.injEq, Option.some.injEq] at h
+          obtain ⟨rfl, rfl, rfl⟩ := h
+          exact ⟨rfl, rfl, rfl⟩
+        | next snt wr' =>
+          obtain ⟨r, rfl, _, hw⟩ := arm_next ha
+          have hwr' := wrWrite_some hw
+          subst hwr'
+          obtain ⟨ih1, ih2⟩ := ih hsz' tail (a + (8 + m.body.length)) fuel (cancel.map (· - 1)) (wr.map (· - 1)) hf'
+          simp only [serveMsgs, serveLoop, hc, ↓reduceIte, hrd, ha]
+          refine ⟨fun sent rem e h => ?_, fun sent rem h => ?_⟩
+          · simp only [Prod.mk.injEq] at h
+            obtain ⟨h1, h2, h3⟩ := h
+            obtain ⟨i1, i2, i3⟩ := ih1 _ _ _ (Prod.ext rfl (Prod.ext h2 h3))
+            exact ⟨by rw [i1, ← h1], i2, i3⟩
+          · simp only [Prod.mk.injEq] at h
+            obtain ⟨h1, h2, h3⟩ := h
+            rw [ih2 _ _ (Prod.ext rfl (Prod.ext h2 h3))]
+            have e1 : fuel + 1 - (m :: ms).length = fuel - ms.length := by simp
+            have e2 : (cancel.map (· - 1)).map (· - ms.length) = cancel.map (· - (m :: ms).length) := by
+              cases cancel <;> simp <;> omega
+            have e3 : (wr.map (· - 1)).map (· - (serveMsgs E (cancel.map (· - 1)) (wr.map (· - 1)) ms).1.length)
+                = wr.map (· - sent.length) := by
+              rw [← h1]
+              cases wr <;> simp <;> omega
+            have e4 : a + (8 + m.body.length) + allocOf ms = a + allocOf (m :: ms) := by simp [allocOf]; omega
+            rw [e1, e2, e3, e4, ← h1]
+            simp
+
+theorem wire_length_ge (ms : List Message) : 16 * ms.length ≤ (wire ms).length := by
+  induction ms with
+  | nil => simp
+  | cons m ms ih => simp; omega
+
+/-! ### inputs on which `Serve` does return nil -/
+
+theorem arm_answered {E : Env} {wr w : Option Nat} {m r : Message} (h : IsReply E m r) (hw : wrWrite wr = some w) :
+    arm E true wr m = .next [r] w := by
+  obtain ⟨h1, h2, h3⟩ := h
+  unfold arm
+  rw [if_pos h1, serveRequest_eq E wr m.body h2, h3]
+  simp only [hw]
+
+theorem arm_goodbye (E : Env) (wr : Option Nat) {m : Message} (h : m.typ = Gen.CaProtocolGoodbye) :
+    arm E true wr m = .stop .nilGoodbye := by
+  unfold arm
+  have h1 : m.typ ≠ Gen.CaProtocolRequest := by rw [h]; decide
+  have h2 : m.typ ≠ Gen.CaProtocolAbort := by rw [h]; decide
+  rw [if_neg h1, if_neg h2, if_pos h]
+
+/-- the replies to a list of answered requests -/
+theorem serveMsgs_answered (E : Env) (gb : Message) (hgb : gb.typ = Gen.CaProtocolGoodbye) (more : List Message) :
+    ∀ (reqs : List Message), (∀ r ∈ reqs, Answered E r) → ∀ (cancel wr : Option Nat),
+      (∀ n, cancel = some n → reqs.length < n) → (∀ n, wr = some n → reqs.length ≤ n) →
+      ∃ sent, serveMsgs E cancel wr (reqs ++ gb :: more) = (sent, more, some .nilGoodbye) ∧ Replies E reqs sent ∧
+        sent.length = reqs.length := by
+  intro reqs
+  induction reqs with
+  | nil =>
+    intro _ cancel wr hc _
+    have : cancel ≠ some 0 := fun h => by have := hc 0 h; simp at this
+    exact ⟨[], by simp [serveMsgs, this, arm_goodbye E wr hgb], trivial, rfl⟩
+  | cons m reqs ih =>
+    intro hall cancel wr hc hw
+    have hc0 : cancel ≠ some 0 := fun h => by have := hc 0 h; simp at this
+    obtain ⟨r, hr⟩ := hall m List.mem_cons_self
+    have hww : wrWrite wr = some (wr.map (· - 1)) := by
+      cases wr with
+      | none => rfl
+      | some n =>
+        cases n with
+        | zero => have := hw 0 rfl; simp at this
+        | succ n => simp [wrWrite]
+    obtain ⟨sent, hs, hrep, hlen⟩ := ih (fun x hx => hall x (List.mem_cons_of_mem _ hx)) (cancel.map (· - 1)) (wr.map (· - 1))
+      (fun n hn => by
+        cases cancel with
+        | none => simp at hn
+        | some k => simp at hn; have := hc k rfl; simp at this; omega)
+      (fun n hn => by
+        cases wr with
+        | none => simp at hn
+        | some k => simp at hn; have := hw k rfl; simp at this; omega)
+    refine ⟨r :: sent, ?_, ⟨hr, hrep⟩, by simp [hlen]⟩
+    simp only [List.cons_append, serveMsgs, hc0, ↓reduceIte, arm_answered hr hww, hs, List.nil_append]
+
+/-- **on exactly these inputs `Serve` returns nil after a goodbye** (with `serverRun_nilGoodbye`) -/
+theorem serverRun_nilGoodbye_of (E : Env) (cancel wr : Option Nat) (f : UInt64) (reqs : List Message) (gb : Message)
+    (rest : Bytes) (hp : f &&& Gen.CaProtocolPullChunks ≠ 0) (hgb : gb.typ = Gen.CaProtocolGoodbye)
+    (hsz : ∀ m ∈ reqs ++ [gb], 16 + m.body.length < 2^64) (hall : ∀ r ∈ reqs, Answered E r)
+    (hc : ∀ n, cancel = some n → reqs.length < n) (hw : ∀ n, wr = some n → reqs.length < n) :
+    (serverRun E cancel wr (wire (helloMsg f :: reqs ++ [gb]) ++ rest)).end_ = .nilGoodbye ∧
+    (serverRun E cancel wr (wire (helloMsg f :: reqs ++ [gb]) ++ rest)).st.rest = rest ∧
+    ∃ sent, (serverRun E cancel wr (wire (helloMsg f :: reqs ++ [gb]) ++ rest)).sent
+        = helloMsg Gen.CaProtocolReadableStore :: sent ∧ Replies E reqs sent ∧ sent.length = reqs.length := by
+  have hww : wrWrite wr = some (wr.map (· - 1)) := by
+    cases wr with
+    | none => rfl
+    | some n =>
+      cases n with
+      | zero => have := hw 0 rfl; simp at this
+      | succ n => simp [wrWrite]
+  obtain ⟨sent, hs, hrep, hlen⟩ := serveMsgs_answered E gb hgb [] reqs hall cancel (wr.map (· - 1)) hc
+    (fun n hn => by
+      cases wr with
+      | none => simp at hn
+      | some k => simp at hn; have := hw k rfl; omega)
+  rw [serverRun_eq]
+  have hin : wire (helloMsg f :: reqs ++ [gb]) ++ rest = writeMessage (helloMsg f) ++ (wire (reqs ++ [gb]) ++ rest) := by
+    simp
+  rw [hin, recvHello_wire, hww]
+  simp only [if_neg hp]
+  have hfuel : (reqs ++ [gb]).length < (wire (reqs ++ [gb]) ++ rest).length + 1 := by
+    have := wire_length_ge (reqs ++ [gb])
+    simp only [List.length_append] at *
+    omega
+  obtain ⟨h1, h2, h3⟩ := (serveLoop_wire E (reqs ++ [gb]) hsz rest (0 + 16) _ cancel (wr.map (· - 1)) hfuel).1 sent [] _ hs
+  exact ⟨h2, by simpa using h3, sent, by rw [h1], hrep, hlen⟩
+
+/-! ### the client on arbitrary bytes from the server side -/
+
+theorem clientReply_le (H : Bytes → Bytes) (dec : Bytes → Option Bytes) (id : Bytes) (s : St) :
+    Le s (clientReply H dec id s).2 ∧ ∀ e, (clientReply H dec id s).1 = .fail e → e.artefact = false := by
+  unfold clientReply
+  cases hr : readMessage s with
+  | err e => exact ⟨failSt_le s, fun e' h => by injection h with h; subst h; rfl⟩
+  | panic p => exact absurd hr (readMessage_nopanic s p)
+  | ok q =>
+    obtain ⟨m, s1⟩ := q
+    have hle := readMessage_le hr
+    simp only
+    split
+    · exact ⟨hle, fun e h => by cases h⟩
+    · split
+      · split
+        · exact ⟨hle, fun e h => by injection h with h; subst h; rfl⟩
+        · rename_i h40
+          have : ¬ m.body.length < 40 := h40
+          simp only [sliceFrom, this, ↓reduceIte]
+          split
+          · exact ⟨hle, fun e h => by injection h with h; subst h; rfl⟩
+          · exact ⟨hle, fun e h => by cases h⟩
+      · exact ⟨hle, fun e h => by injection h with h; subst h; rfl⟩
+
+/-- **whatever the server side sends**, a chunk the client accepts for `id` delivers only bytes
+    that hash to `id` -/
+theorem clientReply_sound (H : Bytes → Bytes) (dec : Bytes → Option Bytes) (id : Bytes) (s : St) (c : ChunkObj)
+    (h : (clientReply H dec id s).1 = .ok c) (b : Bytes) (hb : C03.delivers dec c b) : H b = id := by
+  unfold clientReply at h
+  cases hr : readMessage s with
+  | err e => simp [hr] at h
+  | panic p => simp [hr] at h
+  | ok q =>
+    obtain ⟨m, s1⟩ := q
+    simp only [hr] at h
+    split at h
+    · cases h
+    · split at h
+      · split at h
+        · cases h
+        · rename_i h40
+          have : ¬ m.body.length < 40 := h40
+          simp only [sliceFrom, this, ↓reduceIte] at h
+          split at h
+          · cases h
+          · rename_i c' hc
+            injection h with h; subst h
+            exact C03.fromStorage_sound H dec id _ _ _ hc b hb
+      · cases h
+
+theorem requestChunk_eq (H : Bytes → Bytes) (dec : Bytes → Option Bytes) (id : Bytes) (sent0 : List Message) (s : St) :
+    requestChunk H dec true id ⟨sent0, none, s⟩ =
+      ((clientReply H dec id s).1,
+        ⟨sent0 ++ [requestMessage (fit32 id) Gen.CaProtocolRequestHighPriority], none, (clientReply H dec id s).2⟩) := by
+  simp [requestChunk, mkRequest_eq, wrWrite]
+
+/-- the client's results on any connection: one per id; an accepted chunk hashes to its id; the
+    reader only moves forward and no result is a panic -/
+theorem requestAll_sound (H : Bytes → Bytes) (dec : Bytes → Option Bytes) (init : Bool) :
+    ∀ (ids : List Bytes) (c0 : Conn),
+      (requestAll H dec init ids c0).1.length = ids.length ∧
+      Le c0.st (requestAll H dec init ids c0).2.st ∧
+      ∀ (k : Nat) (r : CRes), (requestAll H dec init ids c0).1[k]? = some r →
+        (∀ c, r = CRes.ok c → ∃ id, ids[k]? = some id ∧ ∀ b, C03.delivers dec c b → H b = id) ∧
+        (∀ p, r ≠ CRes.fail (.panic p)) := by
+  intro ids
+  induction ids with
+  | nil => intro c0; exact ⟨rfl, Le.refl _, fun k r h => by simp [requestAll] at h⟩
+  | cons id ids ih =>
+    intro c0
+    have hone : Le c0.st (requestChunk H dec init id c0).2.st ∧
+        (∀ c, (requestChunk H dec init id c0).1 = .ok c → ∀ b, C03.delivers dec c b → H b = id) ∧
+        (∀ p, (requestChunk H dec init id c0).1 ≠ .fail (.panic p)) := by
+      unfold requestChunk
+      cases init with
+      | false => exact ⟨Le.refl _, fun c h => by simp at h, fun p h => by simp at h⟩
+      | true =>
+        simp only [Bool.not_true, Bool.false_eq_true, ↓reduceIte, mkRequest_eq]
+        cases wrWrite c0.wr with
+        | none => exact ⟨Le.refl _, fun c h => by simp at h, fun p h => by simp at h⟩
+        | some w =>
+          simp only
+          obtain ⟨h1, h2⟩ := clientReply_le H dec id c0.st
+          refine ⟨h1, fun c h => clientReply_sound H dec id c0.st c h, fun p h => ?_⟩
+          have := h2 _ h
+          simp [End.artefact] at this
+    obtain ⟨i1, i2, i3⟩ := ih (requestChunk H dec init id c0).2
+    simp only [requestAll]
+    refine ⟨by simp [i1], hone.1.trans i2, fun k r hk => ?_⟩
+    cases k with
+    | zero =>
+      simp only [List.getElem?_cons_zero, Option.some.injEq] at hk
+      subst hk
+      exact ⟨fun c hc => ⟨id, rfl, hone.2.1 c hc⟩, hone.2.2⟩
+    | succ k =>
+      simp only [List.getElem?_cons_succ] at hk
+      exact i3 k r hk
+
+/-- **C03 over the casync protocol**: whatever bytes arrive from the server side — replies for other
+    chunks, truncated or malformed messages, wrong types, anything — the client produces one result
+    per requested id, and a result `.ok c` for the `k`-th id delivers only bytes hashing to it -/
+theorem clientRun_sound (H : Bytes → Bytes) (dec : Bytes → Option Bytes) (ids : List Bytes) (fromServer : Bytes) :
+    ((clientRun H dec ids fromServer).hs = none → (clientRun H dec ids fromServer).results.length = ids.length) ∧
+    ∀ (k : Nat) (c : ChunkObj), (clientRun H dec ids fromServer).results[k]? = some (.ok c) →
+      ∃ id, ids[k]? = some id ∧ ∀ b, C03.delivers dec c b → H b = id := by
+  unfold clientRun
+  cases protoInit Gen.CaProtocolPullChunks { st := ⟨fromServer, 0⟩ } with
+  | mk c r =>
+    cases r with
+    | error e => exact ⟨fun h => by simp at h, fun k c h => by simp at h⟩
+    | ok flags =>
+      simp only
+      split
+      · exact ⟨fun h => by simp at h, fun k c h => by simp at h⟩
+      · obtain ⟨h1, _, h3⟩ := requestAll_sound H dec true ids c
+        exact ⟨fun _ => h1, fun k c' h => (h3 k _ h).1 c' rfl⟩
+
+/-- the client never panics on what it is sent, and allocates at most what it has consumed -/
+theorem clientRun_real (H : Bytes → Bytes) (dec : Bytes → Option Bytes) (ids : List Bytes) (fromServer : Bytes) :
+    (∀ e, (clientRun H dec ids fromServer).hs = some e → e.artefact = false) ∧
+    (∀ (k : Nat) (p : String), (clientRun H dec ids fromServer).results[k]? ≠ some (CRes.fail (.panic p))) ∧
+    Le ⟨fromServer, 0⟩ (clientRun H dec ids fromServer).conn.st := by
+  unfold clientRun
+  have hi := protoInit_le Gen.CaProtocolPullChunks { st := ⟨fromServer, 0⟩ }
+  cases hp : protoInit Gen.CaProtocolPullChunks { st := ⟨fromServer, 0⟩ } with
+  | mk c r =>
+    rw [hp] at hi
+    cases r with
+    | error e =>
+      refine ⟨fun e' h => ?_, fun k p h => by simp at h, hi.1⟩
+      simp only [Option.some.injEq] at h; subst h; exact hi.2 _ rfl
+    | ok flags =>
+      simp only
+      split
+      · refine ⟨fun e' h => ?_, fun k p h => by simp at h, hi.1⟩
+        simp only [Option.some.injEq] at h; subst h; rfl
+      · obtain ⟨_, h2, h3⟩ := requestAll_sound H dec true ids c
+        exact ⟨fun e h => by simp at h, fun k p h => (h3 k _ h).2 p rfl, hi.1.trans h2⟩
+
+/-! ### a whole session -/
+
+/-- the request message for an id -/
+def reqMsg (id : Bytes) : Message := requestMessage (fit32 id) Gen.CaProtocolRequestHighPriority
+
+theorem reqMsg_isReply {E : Env} {id : Bytes} {r : Message} (hid : id.length = 32) (h : replyOf E id = .ok r) :
+    IsReply E (reqMsg id) r := by
+  have hb : (reqMsg id).body = le64 Gen.CaProtocolRequestHighPriority ++ id := by
+    simp [reqMsg, requestMessage, fit32_of_length hid]
+  have hl : (reqMsg id).body.length = 40 := by simp [hb, hid]
+  refine ⟨rfl, by omega, ?_⟩
+  have : reqId (reqMsg id).body = id := by
+    unfold reqId
+    rw [List.take_of_length_le (by omega), hb, List.drop_left' (by simp)]
+  rw [this, h]
+
+/-- what the server writes for requests for these ids followed by a goodbye, and how it ends -/
+def answers (E : Env) : List Bytes → List Message × End
+  | [] => ([], .nilGoodbye)
+  | id :: ids =>
+    match replyOf E id with
+    | .error e => ([], e)
+    | .ok r => (r :: (answers E ids).1, (answers E ids).2)
+
+theorem serveMsgs_requests (E : Env) : ∀ (ids : List Bytes), (∀ id ∈ ids, id.length = 32) →
+    ∃ rem, serveMsgs E none none (ids.map reqMsg ++ [goodbyeMsg]) = ((answers E ids).1, rem, some (answers E ids).2) := by
+  intro ids
+  induction ids with
+  | nil => intro _; exact ⟨[], by simp [serveMsgs, answers, arm_goodbye E none (m := goodbyeMsg) rfl]⟩
+  | cons id ids ih =>
+    intro hid
+    have hid0 := hid id List.mem_cons_self
+    obtain ⟨rem, hrem⟩ := ih (fun x hx => hid x (List.mem_cons_of_mem _ hx))
+    cases hr : replyOf E id with
+    | error e =>
+      refine ⟨ids.map reqMsg ++ [goodbyeMsg], ?_⟩
+      have hb : (reqMsg id).body = le64 Gen.CaProtocolRequestHighPriority ++ id := by
+        simp [reqMsg, requestMessage, fit32_of_length hid0]
+      have hl : 40 ≤ (reqMsg id).body.length := by simp [hb, hid0]
+      have hq : reqId (reqMsg id).body = id := by
+        unfold reqId
+        rw [List.take_of_length_le (by simp [hb, hid0]), hb, List.drop_left' (by simp)]
+      have ha : arm E true none (reqMsg id) = .stop e := by
+        unfold arm
+        rw [if_pos (show (reqMsg id).typ = Gen.CaProtocolRequest from rfl), serveRequest_eq E none _ hl, hq, hr]
+      simp [serveMsgs, answers, hr, ha]
+    | ok r =>
+      refine ⟨rem, ?_⟩
+      have ha := arm_answered (wr := none) (reqMsg_isReply hid0 hr) rfl
+      simp [serveMsgs, answers, hr, ha, hrem]
+
+/-- the server's side of a session with a well-behaved client -/
+theorem serverRun_session (E : Env) (ids : List Bytes) (hid : ∀ id ∈ ids, id.length = 32) :
+    (serverRun E none none (wire (clientMsgs ids))).sent = helloMsg Gen.CaProtocolReadableStore :: (answers E ids).1 ∧
+    (serverRun E none none (wire (clientMsgs ids))).end_ = (answers E ids).2 := by
+  obtain ⟨rem, hrem⟩ := serveMsgs_requests E ids hid
+  have hin : wire (clientMsgs ids) = writeMessage (helloMsg Gen.CaProtocolPullChunks) ++
+      (wire (ids.map reqMsg ++ [goodbyeMsg]) ++ []) := by
+    simp only [clientMsgs, wire_cons, wire_append, List.append_nil]
+    rfl
+  rw [serverRun_eq, hin, recvHello_wire]
+  have hp : ¬ (Gen.CaProtocolPullChunks &&& Gen.CaProtocolPullChunks = 0) := by decide
+  simp only [wrWrite, if_neg hp]
+  have hsz : ∀ m ∈ ids.map reqMsg ++ [goodbyeMsg], 16 + m.body.length < 2^64 := by
+    intro m hm
+    rcases List.mem_append.mp hm with hm | hm
+    · obtain ⟨id, _, rfl⟩ := List.mem_map.mp hm
+      simp [reqMsg, requestMessage]
+    · simp at hm; subst hm; simp [goodbyeMsg]
+  have hfuel : (ids.map reqMsg ++ [goodbyeMsg]).length < (wire (ids.map reqMsg ++ [goodbyeMsg]) ++ []).length + 1 := by
+    have := wire_length_ge (ids.map reqMsg ++ [goodbyeMsg])
+    simp only [List.length_append] at *
+    omega
+  obtain ⟨h1, h2, _⟩ := (serveLoop_wire E _ hsz [] (0 + 16) _ none none hfuel).1 _ _ _ hrem
+  exact ⟨by rw [h1], h2⟩
+
+/-- what the client makes of the server's answer for `id`; `none`: the server ends the session
+    instead of answering -/
+def verdict (E : Env) (id : Bytes) : Option CRes :=
+  match E.store id with
+  | .failure => none
+  | .missing => some .missing
+  | .chunk c =>
+    match (c.getData E.z.dec).1 with
+    | none => none
+    | some b =>
+      some (if E.H b = id then
+        .ok { data := b, storage := E.z.comp b, convs := [.compressor], id := E.H b, idCalculated := true }
+      else .fail .invalid)
+
+/-- the client's results for a list of ids on one session -/
+def expected (E : Env) : List Bytes → List CRes
+  | [] => []
+  | id :: ids =>
+    match verdict E id with
+    | none => (id :: ids).map fun _ => .fail (.read .eof)
+    | some v => v :: expected E ids
+
+/-- hypotheses about zstd: decompression inverts compression, a frame is never empty, and (Go) no
+    slice is longer than 2^63 -/
+structure ZstdOk (z : Http.Zstd) : Prop where
+  inv : ∀ x, z.dec (z.comp x) = some x
+  nonempty : ∀ x, (z.comp x).length > 0
+  size : ∀ x, (z.comp x).length + 56 < 2^64
+
+theorem replyOf_verdict (E : Env) (hz : ZstdOk E.z) (id : Bytes) (hid : id.length = 32) :
+    (∀ e, replyOf E id = .error e → verdict E id = none) ∧
+    (∀ r, replyOf E id = .ok r → ∃ v, verdict E id = some v ∧ ∀ rest a,
+      clientReply E.H E.z.dec id ⟨writeMessage r ++ rest, a⟩ = (v, ⟨rest, a + (8 + r.body.length)⟩)) := by
+  unfold replyOf verdict
+  cases hs : E.store id with
+  | failure => exact ⟨fun e _ => rfl, fun r h => by cases h⟩
+  | missing =>
+    refine ⟨fun e h => (by cases h), fun r h => ?_⟩
+    injection h with h; subst h
+    refine ⟨.missing, rfl, fun rest a => ?_⟩
+    unfold clientReply
+    rw [readMessage_writeMessage _ rest a (by simp [missingMessage, hid])]
+    simp [missingMessage]
+  | chunk c =>
+    simp only
+    cases hd : c.getData E.z.dec with
+    | mk d c1 =>
+      cases d with
+      | none => exact ⟨fun e _ => rfl, fun r h => by cases h⟩
+      | some b =>
+        refine ⟨fun e h => (by cases h), fun r h => ?_⟩
+        injection h with h; subst h
+        refine ⟨_, rfl, fun rest a => ?_⟩
+        have hsz := hz.size b
+        unfold clientReply
+        rw [readMessage_writeMessage _ rest a (by simp [chunkMessage]; omega)]
+        have hne : Gen.CaProtocolChunk ≠ Gen.CaProtocolMissing := by decide
+        have hl : ¬ (le64 Gen.CaProtocolChunkCompressed ++ fit32 (c1.getID E.H E.z.dec).1 ++ E.z.comp b).length < 40 := by
+          simp; omega
+        have hdrop : (le64 Gen.CaProtocolChunkCompressed ++ fit32 (c1.getID E.H E.z.dec).1 ++ E.z.comp b).drop 40 = E.z.comp b :=
+          List.drop_left' (by simp)
+        have hfs : fromStorage E.z.dec [Conv.compressor] (E.z.comp b) = some b := by
+          simp [fromStorage, hz.inv]
+        simp only [chunkMessage, hne, ↓reduceIte, hl, sliceFrom, hdrop, C03.fromStorage_eq, hz.nonempty b, hfs]
+        by_cases hH : E.H b = id <;> simp [hH]
+
+theorem requestAll_eof (H : Bytes → Bytes) (dec : Bytes → Option Bytes) : ∀ (ids : List Bytes) (sent0 : List Message) (a : Nat),
+    requestAll H dec true ids ⟨sent0, none, ⟨[], a⟩⟩ =
+      (ids.map fun _ => CRes.fail (.read .eof), ⟨sent0 ++ ids.map reqMsg, none, ⟨[], a⟩⟩) := by
+  intro ids
+  induction ids with
+  | nil => intro sent0 a; simp [requestAll]
+  | cons id ids ih =>
+    intro sent0 a
+    have : clientReply H dec id ⟨[], a⟩ = (.fail (.read .eof), ⟨[], a⟩) := by
+      simp [clientReply, readMessage_nil]
+    simp only [requestAll, requestChunk_eq, this, ih, List.map_cons, List.append_assoc, List.singleton_append]
+    rfl
+
+theorem expected_none (E : Env) (id : Bytes) (ids : List Bytes) (h : verdict E id = none) :
+    expected E (id :: ids) = (id :: ids).map fun _ => CRes.fail (.read .eof) := by
+  simp [expected, h]
+
+/-- the client's side of a session with the model server -/
+theorem requestAll_answers (E : Env) (hz : ZstdOk E.z) : ∀ (ids : List Bytes), (∀ id ∈ ids, id.length = 32) →
+    ∀ (sent0 : List Message) (a : Nat),
+      (requestAll E.H E.z.dec true ids ⟨sent0, none, ⟨wire (answers E ids).1, a⟩⟩).1 = expected E ids ∧
+      (requestAll E.H E.z.dec true ids ⟨sent0, none, ⟨wire (answers E ids).1, a⟩⟩).2.sent = sent0 ++ ids.map reqMsg := by
+  intro ids
+  induction ids with
+  | nil => intro _ sent0 a; simp [requestAll, expected]
+  | cons id ids ih =>
+    intro hid sent0 a
+    have hid0 := hid id List.mem_cons_self
+    obtain ⟨hv1, hv2⟩ := replyOf_verdict E hz id hid0
+    cases hr : replyOf E id with
+    | error e =>
+      have hv := hv1 e hr
+      have ha : (answers E (id :: ids)).1 = [] := by simp [answers, hr]
+      rw [ha, wire_nil, requestAll_eof, expected_none E id ids hv]
+      exact ⟨rfl, rfl⟩
+    | ok r =>
+      obtain ⟨v, hv, hc⟩ := hv2 r hr
+      have ha : (answers E (id :: ids)).1 = r :: (answers E ids).1 := by simp [answers, hr]
+      obtain ⟨i1, i2⟩ := ih (fun x hx => hid x (List.mem_cons_of_mem _ hx))
+        (sent0 ++ [requestMessage (fit32 id) Gen.CaProtocolRequestHighPriority]) (a + (8 + r.body.length))
+      rw [ha, wire_cons]
+      simp only [requestAll, requestChunk_eq, hc, i1, i2, expected, hv]
+      simp [reqMsg]
+
+/-- **a whole session, computed**: the server reads what the client writes and the client reads
+    what the server writes; the handshake succeeds on both sides; the client's results are
+    `expected`, it has written exactly `clientMsgs`, and the server ends as `answers` says -/
+theorem session_eq (E : Env) (hz : ZstdOk E.z) (ids : List Bytes) (hid : ∀ id ∈ ids, id.length = 32) :
+    (session E ids).client.hs = none ∧
+    (session E ids).client.results = expected E ids ∧
+    (session E ids).client.conn.sent = clientMsgs ids ∧
+    (session E ids).server.sent = helloMsg Gen.CaProtocolReadableStore :: (answers E ids).1 ∧
+    (session E ids).server.end_ = (answers E ids).2 := by
+  obtain ⟨hs1, hs2⟩ := serverRun_session E ids hid
+  unfold session
+  simp only
+  refine ⟨?_, ?_, ?_, hs1, hs2⟩ <;>
+  · unfold ServerOut.written clientRun
+    rw [hs1, protoInit_eq, wire_cons, recvHello_wire]
+    have hp : ¬ (Gen.CaProtocolReadableStore &&& Gen.CaProtocolReadableStore = 0) := by decide
+    obtain ⟨h1, h2⟩ := requestAll_answers E hz ids hid ([] ++ [helloMsg Gen.CaProtocolPullChunks]) (0 + 16)
+    simp only [wrWrite, if_neg hp, h1, h2]
+    try (simp [clientMsgs, reqMsg])
+
+/-! ### the `k`-th result of a session -/
+
+/-- the store cannot answer a request for `id`: `GetChunk` fails with something other than
+    `ChunkMissing`, or it yields a chunk object whose data cannot be produced -/
+def StoreFails (E : Env) (id : Bytes) : Prop := verdict E id = none
+
+/-- every request before the `k`-th was answered (with a chunk or with "missing") -/
+def ServedBefore (E : Env) (ids : List Bytes) (k : Nat) : Prop :=
+  ∀ j idj, j < k → ids[j]? = some idj → ¬ StoreFails E idj
+
+theorem storeFails_iff (E : Env) (id : Bytes) :
+    StoreFails E id ↔ (match E.store id with
+      | .failure => True
+      | .missing => False
+      | .chunk c => (c.getData E.z.dec).1 = none) := by
+  unfold StoreFails verdict
+  cases E.store id with
+  | failure => simp
+  | missing => simp
+  | chunk c =>
+    simp only
+    cases (c.getData E.z.dec).1 <;> simp
+
+theorem expected_get (E : Env) : ∀ (ids : List Bytes) (k : Nat) (id : Bytes), ids[k]? = some id →
+    (ServedBefore E ids k → ∀ v, verdict E id = some v → (expected E ids)[k]? = some v) ∧
+    ((¬ ServedBefore E ids k ∨ StoreFails E id) → (expected E ids)[k]? = some (.fail (.read .eof))) := by
+  intro ids
+  induction ids with
+  | nil => intro k id h; simp at h
+  | cons id0 ids ih =>
+    intro k id hk
+    cases hv0 : verdict E id0 with
+    | none =>
+      have hexp : (expected E (id0 :: ids))[k]? = some (.fail (.read .eof)) := by
+        rw [expected_none E id0 ids hv0, List.getElem?_map, hk]; rfl
+      refine ⟨fun hs v hv => ?_, fun _ => hexp⟩
+      cases k with
+      | zero =>
+        simp only [List.getElem?_cons_zero, Option.some.injEq] at hk
+        subst hk; rw [hv0] at hv; cases hv
+      | succ k => exact absurd hv0 (hs 0 id0 (Nat.succ_pos _) rfl)
+    | some v0 =>
+      have hexp : expected E (id0 :: ids) = v0 :: expected E ids := by simp [expected, hv0]
+      rw [hexp]
+      cases k with
+      | zero =>
+        simp only [List.getElem?_cons_zero, Option.some.injEq] at hk
+        subst hk
+        refine ⟨fun _ v hv => by rw [hv0] at hv; simpa using hv, fun h => ?_⟩
+        rcases h with h | h
+        · exact absurd (fun j idj hj _ => absurd hj (Nat.not_lt_zero _)) h
+        · unfold StoreFails at h; rw [hv0] at h; cases h
+      | succ k =>
+        simp only [List.getElem?_cons_succ] at hk ⊢
+        obtain ⟨i1, i2⟩ := ih k id hk
+        have hiff : ServedBefore E (id0 :: ids) (k + 1) ↔ ServedBefore E ids k := by
+          constructor
+          · intro h j idj hj hidj
+            exact h (j + 1) idj (by omega) (by simpa using hidj)
+          · intro h j idj hj hidj
+            cases j with
+            | zero =>
+              simp only [List.getElem?_cons_zero, Option.some.injEq] at hidj
+              subst hidj; unfold StoreFails; rw [hv0]; simp
+            | succ j => exact h j idj (by omega) (by simpa using hidj)
+        exact ⟨fun hs => i1 (hiff.mp hs), fun h => i2 (h.imp (fun h' hs => h' (hiff.mpr hs)) (fun x => x))⟩
+
+theorem expected_length (E : Env) : ∀ (ids : List Bytes), (expected E ids).length = ids.length := by
+  intro ids
+  induction ids with
+  | nil => rfl
+  | cons id ids ih =>
+    cases hv : verdict E id with
+    | none => rw [expected_none E id ids hv]; simp
+    | some v => simp [expected, hv, ih]
+
+/-- **a session is faithful**: in a session over byte streams between the client and the server,
+    for every list of requested ids and every store, the `k`-th client result is — as long as the
+    store has answered every earlier request, where "missing" is an answer — `missing` when the
+    store reports the chunk missing, a chunk delivering the store's bytes when those hash to the id,
+    `ChunkInvalid` when they do not; and an error (never `missing`, never data) from the first store
+    failure on.  `missing` is reported exactly when the store says so. -/
+theorem session_faithful (E : Env) (hz : ZstdOk E.z) (ids : List Bytes) (hid : ∀ id ∈ ids, id.length = 32) :
+    (session E ids).client.results.length = ids.length ∧
+    ∀ (k : Nat) (id : Bytes), ids[k]? = some id →
+      (ServedBefore E ids k →
+        (E.store id = .missing → (session E ids).client.results[k]? = some .missing) ∧
+        (∀ c b, E.store id = .chunk c → (c.getData E.z.dec).1 = some b → E.H b = id →
+          ∃ c', (session E ids).client.results[k]? = some (.ok c') ∧ C03.delivers E.z.dec c' b) ∧
+        (∀ c b, E.store id = .chunk c → (c.getData E.z.dec).1 = some b → E.H b ≠ id →
+          (session E ids).client.results[k]? = some (.fail .invalid))) ∧
+      ((¬ ServedBefore E ids k ∨ StoreFails E id) →
+        (session E ids).client.results[k]? = some (.fail (.read .eof))) ∧
+      ((session E ids).client.results[k]? = some .missing ↔ ServedBefore E ids k ∧ E.store id = .missing) := by
+  obtain ⟨_, hres, _, _, _⟩ := session_eq E hz ids hid
+  rw [hres]
+  refine ⟨expected_length E ids, fun k id hk => ?_⟩
+  obtain ⟨h1, h2⟩ := expected_get E ids k id hk
+  have hmiss : ∀ (hs : ServedBefore E ids k), E.store id = .missing → (expected E ids)[k]? = some .missing :=
+    fun hs hm => h1 hs _ (by simp [verdict, hm])
+  refine ⟨fun hs => ⟨hmiss hs, fun c b hc hd hH => ?_, fun c b hc hd hH => ?_⟩, h2, ?_, fun ⟨hs, hm⟩ => hmiss hs hm⟩
+  · refine ⟨{ data := b, storage := E.z.comp b, convs := [.compressor], id := E.H b, idCalculated := true },
+      h1 hs _ (by simp only [verdict, hc, hd, hH, ↓reduceIte]), ?_⟩
+    unfold C03.delivers ChunkObj.getData
+    simp only
+    split
+    · rfl
+    · have := hz.nonempty b
+      simp [this, fromStorage, hz.inv]
+  · exact h1 hs _ (by simp only [verdict, hc, hd, hH, ↓reduceIte])
+  · intro hm
+    by_cases hs : ServedBefore E ids k
+    · refine ⟨hs, ?_⟩
+      cases hv : verdict E id with
+      | none => rw [h2 (Or.inr hv)] at hm; cases hm
+      | some v =>
+        rw [h1 hs v hv] at hm
+        simp only [Option.some.injEq] at hm
+        subst hm
+        unfold verdict at hv
+        split at hv
+        · cases hv
+        · assumption
+        · split at hv
+          · cases hv
+          · simp only [Option.some.injEq] at hv
+            split at hv <;> cases hv
+    · rw [h2 (Or.inl hs)] at hm; cases hm
+
+/-! ### the label of a reply -/
+
+/-- **the server labels a chunk reply with `chunk.ID()`, not with the requested id**: for a chunk
+    object whose id is marked calculated (`NewChunkWithID` / `NewChunkFromStorage`, verified or
+    with `skipVerify`) that is the id the object was constructed with; otherwise (`NewChunk`) the
+    digest of its data -/
+theorem replyOf_label (E : Env) (id : Bytes) (c c1 : ChunkObj) (b : Bytes) (hs : E.store id = .chunk c)
+    (hd : c.getData E.z.dec = (some b, c1)) :
+    replyOf E id = .ok (chunkMessage (fit32 (if c.idCalculated then c.id else E.H b))
+      Gen.CaProtocolChunkCompressed (E.z.comp b)) := by
+  have hl : (c1.getID E.H E.z.dec).1 = if c.idCalculated then c.id else E.H b := by
+    unfold ChunkObj.getData at hd
+    split at hd
+    · rename_i hdat
+      injection hd with h1 h2; injection h1 with h1; subst h1; subst h2
+      unfold ChunkObj.getID
+      split
+      · rfl
+      · simp [ChunkObj.getData, hdat]
+    · split at hd
+      · rename_i hdat hsto
+        split at hd
+        · rename_i d hdec
+          injection hd with h1 h2; injection h1 with h1; subst h1; subst h2
+          unfold ChunkObj.getID
+          simp only
+          split
+          · rfl
+          · by_cases hdl : d.length > 0
+            · simp [ChunkObj.getData, hdl]
+            · simp [ChunkObj.getData, hdl, hsto, hdec]
+        · cases hd
+      · cases hd
+  simp only [replyOf, hs, hd, hl]
+
+/-! ### causality -/
+
+/-- **what the server has written in answer to the messages it has read does not depend on what
+    follows them in the input**: for an input that starts with a hello asking for chunks and the
+    messages `ms`, the output starts with the server's hello and the message-level answers to `ms`,
+    whatever the `tail` is -/
+theorem server_causal (E : Env) (cancel wr w : Option Nat) (hw : wrWrite wr = some w) (f : UInt64)
+    (hp : f &&& Gen.CaProtocolPullChunks ≠ 0) (ms : List Message) (hsz : ∀ m ∈ ms, 16 + m.body.length < 2^64)
+    (tail : Bytes) :
+    ∃ more, (serverRun E cancel wr (wire (helloMsg f :: ms) ++ tail)).sent =
+      helloMsg Gen.CaProtocolReadableStore :: (serveMsgs E cancel w ms).1 ++ more := by
+  rw [serverRun_eq]
+  have hin : wire (helloMsg f :: ms) ++ tail = writeMessage (helloMsg f) ++ (wire ms ++ tail) := by simp
+  rw [hin, recvHello_wire, hw]
+  simp only [if_neg hp]
+  have hfuel : ms.length < (wire ms ++ tail).length + 1 := by
+    have := wire_length_ge ms
+    simp only [List.length_append]; omega
+  obtain ⟨h1, h2⟩ := serveLoop_wire E ms hsz tail (0 + 16) _ cancel w hfuel
+  cases hr : serveMsgs E cancel w ms with
+  | mk sent x =>
+    obtain ⟨rem, oe⟩ := x
+    cases oe with
+    | some e => exact ⟨[], by rw [(h1 sent rem e hr).1]; simp⟩
+    | none =>
+      refine ⟨(serveLoop E true ((wire ms ++ tail).length + 1 - ms.length) (cancel.map (· - ms.length))
+        (w.map (· - sent.length)) ⟨tail, 0 + 16 + allocOf ms⟩).1, ?_⟩
+      rw [h2 sent rem hr]; simp
+
 end Desync.PS
